@@ -42,6 +42,8 @@ ApplySeq(meta, s, op, a, b, nres) ==
     [] op = "pushf" -> IF Full(meta, s) THEN {<< <<0>>, s >>} ELSE {<< <<1>>, <<a>> \o s >>}
     [] op = "emplace" -> IF Full(meta, s) THEN {<< <<0>>, s >>}
                          ELSE IF b <= Len(s) THEN {<< <<a>>, InsAt(s, b, a) >>} ELSE {}
+    \* emplace whose returned iterator is then walked forwards to the end and from there backwards to the beginning
+    [] op = "emplacew" -> IF b <= Len(s) THEN LET t == InsAt(s, b, a) IN {<< <<a>> \o SubSeq(t, b + 1, Len(t)) \o Rev(t), t >>} ELSE {}
     [] op = "popb" -> IF s = <<>> THEN {<< <<0>>, s >>} ELSE {<< <<1>>, SubSeq(s, 1, Len(s) - 1) >>}
     [] op = "popf" -> IF s = <<>> THEN {<< <<0>>, s >>} ELSE {<< <<1>>, Tail(s) >>}
     [] op = "front" -> IF s = <<>> THEN {} ELSE {<< <<s[1]>>, s >>}
@@ -100,6 +102,8 @@ HasKey(m, k) == \E i \in 1..Len(m) : m[i][1] = k
 IdxOf(m, k) == CHOOSE i \in 1..Len(m) : m[i][1] = k
 MapIns(m, k, v) == LET p == Cardinality({i \in 1..Len(m) : m[i][1] < k}) IN InsAt(m, p, <<k, v>>)
 MapSet(m, k, v) == IF HasKey(m, k) THEN [m EXCEPT ![IdxOf(m, k)] = <<k, v>>] ELSE MapIns(m, k, v)
+RECURSIVE InsRange(_, _, _, _)
+InsRange(m, k, n, v) == IF k > n THEN m ELSE InsRange(IF HasKey(m, k) THEN m ELSE MapIns(m, k, v), k + 1, n, v)
 ApplyMap(meta, m, op, a, b, nres) ==
   CASE op = "insert" -> IF HasKey(m, a) THEN {<< <<0, a, m[IdxOf(m, a)][2]>>, m >>}
                         ELSE {<< <<1, a, b>>, MapIns(m, a, b) >>}
@@ -112,6 +116,8 @@ ApplyMap(meta, m, op, a, b, nres) ==
                        IF ge = {} THEN {<< <<>>, m >>}
                        ELSE {<< <<m[CHOOSE i \in ge : \A j \in ge : i <= j][1]>>, m >>}
     [] op = "erasepos" -> IF b < Len(m) THEN {<< <<>>, RemAt(m, b + 1) >>} ELSE {}
+    \* range insertion of the keys 1..a with value b: keys already present keep their value
+    [] op = "insrange" -> {<< <<>>, InsRange(m, 1, a, b) >>}
     [] op = "clear" -> {<< <<>>, <<>> >>}
     [] op = "size" -> {<< SizeRes(meta, m, nres), m >>}
     [] op = "copy" -> {<< <<>>, m >>}
